@@ -1019,6 +1019,25 @@ Proof.
   - left. reflexivity.
 Qed.
 
+(* destruction of a connection object (OCDel, and the collection of a shared one) *)
+Lemma conn_destroy_w c p st st1 : W st -> get_connptr (WC c) st = Some p -> watch_remove p (WC c) st = Ok st1 ->
+  W (with_conns (aset c None (conns st1)) st1).
+Proof. intros Hy Hp E1. destruct (watch_remove_w _ _ _ _ Hy Hp E1) as (H1 & U1 & _). apply W_del_conn; assumption. Qed.
+
+Lemma watch_remove_ST p w st st' : ST st -> watch_remove p w st = Ok st' -> ST st'.
+Proof.
+  intro HS. unfold watch_remove. destruct p as [[i n]|]; [|intro E; injection E as <-; exact HS].
+  destruct (get_sb (LNode i n) st) as [sb|]; [|discriminate].
+  destruct (sb_rep sb) as [r|]; intro E; injection E as <-; [exact (ST_set_sb (LNode i n) _ st HS)|exact HS].
+Qed.
+
+Lemma conn_destroy_wn c p st st1 : WN st -> get_connptr (WC c) st = Some p -> watch_remove p (WC c) st = Ok st1 ->
+  WN (with_conns (aset c None (conns st1)) st1).
+Proof.
+  intros (Hy & HS) Hp E1. split; [eapply conn_destroy_w; eauto|].
+  unfold ST. cbn [impls with_conns]. exact (watch_remove_ST _ _ _ _ HS E1).
+Qed.
+
 Lemma W_del_sconn k st : W st -> unreg (WK k) st -> W (with_sconns (aset k None (sconns st)) st).
 Proof.
   intros H Hu. apply (W_ptr st); [exact H|reflexivity|]. intro w. destruct w as [c'|k'].
@@ -1056,7 +1075,7 @@ Section WStep.
     end.
   Proof.
     intros H Hy. pose proof (WN_of _ H Hy) as Hn.
-    destruct o as [t|t|td ts|td ts|t|t|t|s rk body refs|s rk|sn so|sn so|sd ss|sd ss|s arg catch|s b|s|s|s|g k|gn go|gn go|gd gs|gd gs|g|g|g|g s c front mv|g arg catch|g|g b|g|s g|c|cn co|cd cs|c|c b|c|c|k c|k|k c|kn ko|kd ks|k1 k2|k c|k|k b|k|k| | ]; try exact I; cbn [step].
+    destruct o as [t|t|td ts|td ts|t|t|t|s rk body refs|s rk|sn so|sn so|sd ss|sd ss|s arg catch|s b|s|s|s|g k|gn go|gn go|gd gs|gd gs|g|g|g|g s c front mv|g arg catch|g|g b|g|s g|c|cn co|cd cs|c|c b|c|c|c|c|k c|k|k c|kn ko|kd ks|k1 k2|k c|k|k b|k|k| | ]; try exact I; cbn [step].
     - destruct (fresh_track t st && N.ltb t 1000); [|apply skip_w; exact Hy].
       cbn [out_w]. eapply W_keep; [|exact Hy]. repeat split.
     - destruct (live_track t st); [|apply skip_w; exact Hy].
@@ -1088,7 +1107,7 @@ Section WStep.
     end.
   Proof.
     intros H Hy. pose proof (wf_c _ H) as Hc. pose proof (WN_of _ H Hy) as Hn.
-    destruct o as [t|t|td ts|td ts|t|t|t|s rk body refs|s rk|sn so|sn so|sd ss|sd ss|s arg catch|s b|s|s|s|g k|gn go|gn go|gd gs|gd gs|g|g|g|g s c front mv|g arg catch|g|g b|g|s g|c|cn co|cd cs|c|c b|c|c|k c|k|k c|kn ko|kd ks|k1 k2|k c|k|k b|k|k| | ]; try exact I; cbn [step].
+    destruct o as [t|t|td ts|td ts|t|t|t|s rk body refs|s rk|sn so|sn so|sd ss|sd ss|s arg catch|s b|s|s|s|g k|gn go|gn go|gd gs|gd gs|g|g|g|g s c front mv|g arg catch|g|g b|g|s g|c|cn co|cd cs|c|c b|c|c|c|c|k c|k|k c|kn ko|kd ks|k1 k2|k c|k|k b|k|k| | ]; try exact I; cbn [step].
     - (* OSNew *)
       destruct (fresh_slot s st && _ && _); [|apply skip_w; exact Hy].
       destruct (bind_all (next_rid st) refs (with_next_rid (next_rid st + 1) st)) as [st2|] eqn:E; [|exact I].
@@ -1161,7 +1180,7 @@ Section WStep.
     end.
   Proof.
     intros H Hy. pose proof (WN_of _ H Hy) as Hn.
-    destruct o as [t|t|td ts|td ts|t|t|t|s rk body refs|s rk|sn so|sn so|sd ss|sd ss|s arg catch|s b|s|s|s|g k|gn go|gn go|gd gs|gd gs|g|g|g|g s c front mv|g arg catch|g|g b|g|s g|c|cn co|cd cs|c|c b|c|c|k c|k|k c|kn ko|kd ks|k1 k2|k c|k|k b|k|k| | ]; try exact I; cbn [step].
+    destruct o as [t|t|td ts|td ts|t|t|t|s rk body refs|s rk|sn so|sn so|sd ss|sd ss|s arg catch|s b|s|s|s|g k|gn go|gn go|gd gs|gd gs|g|g|g|g s c front mv|g arg catch|g|g b|g|s g|c|cn co|cd cs|c|c b|c|c|c|c|k c|k|k c|kn ko|kd ks|k1 k2|k c|k|k b|k|k| | ]; try exact I; cbn [step].
     - (* OGNew *)
       destruct (fresh_sig g st && _); [|apply skip_w; exact Hy].
       cbn [out_w]. destruct (gk_track k); (eapply W_keep; [|exact Hy]; repeat split).
@@ -1248,14 +1267,14 @@ Section WStep.
 
   Lemma step_conn_w o st : WF st -> W st ->
     match o with
-    | OCEmpty _ | OCCopy _ _ | OCAssign _ _ | OCDisc _ | OCBlock _ _ | OCDel _ | OCQuery _
+    | OCEmpty _ | OCCopy _ _ | OCAssign _ _ | OCDisc _ | OCBlock _ _ | OCShare _ | OCRelease _ | OCDel _ | OCQuery _
     | OKNew _ _ | OKEmpty _ | OKAssign _ _ | OKMove _ _ | OKMoveAssign _ _ | OKSwap _ _ | OKRelease _ _
     | OKDisc _ | OKBlock _ _ | OKDel _ | OKQuery _ => out_w (step prog rec o st)
     | _ => True
     end.
   Proof.
     intros H Hy. pose proof (WN_of _ H Hy) as Hn.
-    destruct o as [t|t|td ts|td ts|t|t|t|s rk body refs|s rk|sn so|sn so|sd ss|sd ss|s arg catch|s b|s|s|s|g k|gn go|gn go|gd gs|gd gs|g|g|g|g s c front mv|g arg catch|g|g b|g|s g|c|cn co|cd cs|c|c b|c|c|k c|k|k c|kn ko|kd ks|k1 k2|k c|k|k b|k|k| | ]; try exact I; cbn [step].
+    destruct o as [t|t|td ts|td ts|t|t|t|s rk body refs|s rk|sn so|sn so|sd ss|sd ss|s arg catch|s b|s|s|s|g k|gn go|gn go|gd gs|gd gs|g|g|g|g s c front mv|g arg catch|g|g b|g|s g|c|cn co|cd cs|c|c b|c|c|c|c|k c|k|k c|kn ko|kd ks|k1 k2|k c|k|k b|k|k| | ]; try exact I; cbn [step].
     - (* OCEmpty *)
       destruct (fresh_conn c st) eqn:Hf; [|apply skip_w; exact Hy]. cbn [out_w].
       apply set_connptr_W; [exact Hy|]. apply W_unreg_null; [exact Hy|]. apply none_not_some. apply fresh_conn_ptr. exact Hf.
@@ -1272,11 +1291,19 @@ Section WStep.
       apply liftu_w. intros st' E. exact (proj1 (conn_disconnect_w _ _ _ Hn E)).
     - (* OCBlock *)
       destruct (get_connptr (WC c) st) as [p|]; [|apply skip_w; exact Hy]. apply conn_block_w. exact Hn.
+    - (* OCShare *)
+      destruct (get_connptr (WC c) st) as [p|]; [|apply skip_w; exact Hy].
+      destruct (negb (is_shared (conn_key c) st) && N.ltb c 1000); [|apply skip_w; exact Hy].
+      cbn [out_w]. eapply W_keep; [|exact Hy]. repeat split.
+    - (* OCRelease *)
+      destruct (get_connptr (WC c) st) as [p|]; [|apply skip_w; exact Hy].
+      destruct (is_shared (conn_key c) st && negb (is_released (conn_key c) st)); [|apply skip_w; exact Hy].
+      cbn [out_w]. eapply W_keep; [|exact Hy]. repeat split.
     - (* OCDel *)
       destruct (get_connptr (WC c) st) as [p|] eqn:Hp; [|apply skip_w; exact Hy].
+      destruct (negb (is_shared (conn_key c) st)); [|apply skip_w; exact Hy].
       apply liftu_w. intros st' E. destruct (watch_remove p (WC c) st) as [st1|] eqn:E1; cbn [rbind] in E; [|discriminate].
-      inversion E; subst st'. destruct (watch_remove_w _ _ _ _ Hy Hp E1) as (H1 & U1 & _).
-      apply W_del_conn; assumption.
+      inversion E; subst st'. eapply conn_destroy_w; eauto.
     - (* OCQuery *)
       destruct (get_connptr (WC c) st) as [p|]; [|apply skip_w; exact Hy]. apply conn_query_w. exact Hy.
     - (* OKNew *)
@@ -1380,7 +1407,10 @@ Section WStep.
     induction fuel as [|fuel IH]; intros st st' Hn; cbn [gc].
     - destruct (find_orphan prog (shared st) st); [discriminate|]. intro E. inversion E; subst. exact Hn.
     - destruct (find_orphan prog (shared st) st) as [t|]; [|intro E; inversion E; subst; exact Hn].
-      destruct (N.leb 2000 t).
+      destruct (N.leb 4000 t); [|destruct (N.leb 2000 t)].
+      + destruct (get_connptr (WC (t - 4000)) st) as [p|] eqn:Hp; [|discriminate].
+        destruct (watch_remove p (WC (t - 4000)) st) as [st1|] eqn:E1; cbn [rbind]; [|discriminate].
+        apply IH. exact (conn_destroy_wn _ _ _ _ Hn Hp E1).
       + destruct (live_sig (t - 2000) st) as [go|]; [|discriminate].
         destruct (sig_destroy (t - 2000) go st) as [st1|] eqn:E1; cbn [rbind]; [|discriminate].
         apply IH. exact (sig_destroy_w _ _ _ _ Hn E1).
